@@ -69,11 +69,28 @@ DAdd(a, b) == IF IsFin(a) /\ IsFin(b) THEN AddFin(a, b)
               ELSE IF a.k = "inf" /\ b.k = "inf" THEN (IF a.s = b.s THEN a ELSE NaN)
               ELSE IF a.k = "inf" THEN a ELSE b
 DSub(a, b) == DAdd(a, DNeg(b))
-DSign(a) == a.s                               \* finite or inf
-DCmp(a, b) == DSign(DSub(a, b))               \* finite operands
+DSign(a) == IF a.k = "nan" THEN 2 ELSE a.s      \* -1, 0, 1; 2 for NaN
+\* three-way comparison; specials ordered as IEEE does, NaN compares as 2 (unordered)
+DCmp(a, b) == IF a.k = "nan" \/ b.k = "nan" THEN 2
+              ELSE IF a.k = "inf" /\ b.k = "inf" THEN (IF a.s = b.s THEN 0 ELSE a.s)
+              ELSE DSign(DSub(a, b))
 DAbs(a) == IF IsFin(a) \/ a.k = "inf" THEN [a EXCEPT !.s = IF a.s = 0 THEN 0 ELSE 1] ELSE a
-DLe(a, b) == DCmp(a, b) <= 0
-\* |a-b| <= 2^-bits (|a|+|b|)   and   |r| <= 2^-bits * scale
-Close(a, b, bits) == DLe(DAbs(DSub(a, b)), DShift(DAdd(DAbs(a), DAbs(b)), -bits))
-Small(r, scale, bits) == DLe(DAbs(r), DShift(DAbs(scale), -bits))
+DLe(a, b) == DCmp(a, b) \in {-1, 0}
+DLt(a, b) == DCmp(a, b) = -1
+DEq(a, b) == DCmp(a, b) = 0                  \* numeric equality (false for NaN)
+DSame(a, b) == a = b                          \* structural: canonical form, NaN = NaN
+DSq(a) == DMul(a, a)
+DTwo(a) == DShift(a, 1)
+DHalf(a) == DShift(a, -1)
+DOne == DInt(1)
+DMax(a, b) == IF DLe(a, b) THEN b ELSE a
+RECURSIVE DSumSeq(_)
+DSumSeq(s) == IF s = <<>> THEN DZero ELSE DAdd(s[1], DSumSeq(Tail(s)))
+\* |a-b| <= 2^-bits (|a|+|b|)   and   |r| <= 2^-bits * scale   (finite operands only)
+Close(a, b, bits) == /\ IsFin(a) /\ IsFin(b)
+                     /\ DLe(DAbs(DSub(a, b)), DShift(DAdd(DAbs(a), DAbs(b)), -bits))
+Small(r, scale, bits) == /\ IsFin(r) /\ IsFin(scale)
+                         /\ DLe(DAbs(r), DShift(DAbs(scale), -bits))
+\* equal as IEEE values would print: both NaN, same infinity, or Close
+Agree(a, b, bits) == IF IsFin(a) /\ IsFin(b) THEN Close(a, b, bits) ELSE a = b
 =============================================================================
